@@ -280,18 +280,33 @@ func TestC20Trunc(t *testing.T) {
 
 const natAlphabet = "019/:a"
 
+// natAlphabetHigh: non-ASCII bytes around the code points '0'|0x80 .. '9'|0x80
+// (continuation bytes of ordinary UTF-8 text such as "°", "ñ") next to a digit.
+const natAlphabetHigh = "9\xaf\xb0\xb9\xba"
+
 func natStrings(maxLen int) []string {
 	out := []string{""}
-	level := []string{""}
-	for l := 1; l <= maxLen; l++ {
-		var next []string
-		for _, s := range level {
-			for i := 0; i < len(natAlphabet); i++ {
-				next = append(next, s+natAlphabet[i:i+1])
+	seen := map[string]bool{"": true}
+	for _, ab := range []struct {
+		alpha string
+		max   int
+	}{{natAlphabet, maxLen}, {natAlphabetHigh, maxLen - 1}} {
+		level := []string{""}
+		for l := 1; l <= ab.max; l++ {
+			var next []string
+			for _, s := range level {
+				for i := 0; i < len(ab.alpha); i++ {
+					next = append(next, s+ab.alpha[i:i+1])
+				}
 			}
+			for _, s := range next {
+				if !seen[s] {
+					seen[s] = true
+					out = append(out, s)
+				}
+			}
+			level = next
 		}
-		out = append(out, next...)
-		level = next
 	}
 	return out
 }
@@ -454,7 +469,7 @@ func TestC20Natural(t *testing.T) {
 // ---------------------------------------------------------------------------
 // CompareNatural: random longer strings (rapid)
 
-const natSep = "/:a-z .A_b"
+const natSep = "/:a-z .A_b" + "\xaf\xb0\xb5\xb9\xba\x80\xff\xc3"
 
 func genToken(t *rapid.T, digit bool) string {
 	if digit {
